@@ -267,6 +267,18 @@ def run_entry(e, quick, acc):
                     acc.violation(key, {"kind": "rebuild", "entry": label, "payload": pl2.hex(), "pbf": int(pbf)}, detail)
             if not pins_sizes:
                 break
+        # variable-length text: valid UTF-8 with 2-, 3- and 4-byte characters (the parser reports str; feeding it back must regenerate the bytes)
+        if "CH" in e.pdict.values():
+            pl0 = C.build_payload(e, lambda x: 1, 0, bg)
+            if pl0 is not None:
+                for txt in ("Z\u00fcrich 47\u00b0", "\u00e9", "a\u2032b", "\U0001F600 ok", "\u00b5\u00b5\u00b5", "plain"):
+                    pl2 = pl0[: len(pl0) - C.CH_LEN] + txt.encode("utf-8")
+                    st, out = judge_rebuild(e, pl2, pbf)
+                    acc.evaluations += 1
+                    acc.transitions += 2
+                    acc.outcomes[("text", pbf, st)] += 1
+                    for key, detail in out:
+                        acc.violation(key + "|non_ascii_text", {"kind": "rebuild", "entry": label, "payload": pl2.hex(), "pbf": int(pbf), "suffix": "|non_ascii_text"}, detail)
         # (ii') every field with its boundary raw values, others zero
         base = C.build_payload(e, lambda x: 1, 0)
         if base is not None:
@@ -356,7 +368,7 @@ def _unjkw(kw):
 def replay_case(case):
     e = next(x for x in C.entries() if x.label == case["entry"])
     if case["kind"] == "rebuild":
-        return judge_rebuild(e, bytes.fromhex(case["payload"]), bool(case["pbf"]))[1]
+        return [(k + case.get("suffix", ""), d) for k, d in judge_rebuild(e, bytes.fromhex(case["payload"]), bool(case["pbf"]))[1]]
     return judge_build(e, _unjkw(case["kw"]), case["pbf"], case["what"])[1]
 
 
